@@ -36,12 +36,62 @@ def tmp_counter():
     return fa_expr.make_symbol.__defaults__[0][0]
 
 
+# ---- synthetic user-level algorithms: they exercise naming features the shipped algorithms use sparingly
+# (nested Context.call with colliding local names -> stack-name prefixed references; commutative boolean
+# operands in both orders -> key ordering; constants built from bare Python numbers under a default constant type)
+
+def _syn_inner(ctx, a, b):
+    r = a * b
+    s = a - b
+    return ctx(r + s)
+
+
+_syn_inner.__name__ = "inner"
+
+
+def syn_nested(ctx, x: float, y: float):
+    r = x + y
+    s = x * y
+    t = ctx.call(_syn_inner, (x, y))
+    u = ctx.call(_syn_inner, (r, s))
+    return ctx(r * t + s * u)
+
+
+def syn_commutative(ctx, x: float, y: float, z: float):
+    a = ctx.logical_and(y > x, x > z)
+    b = ctx.logical_and(x > z, y > x)
+    c = ctx.logical_or(z > y, ctx.logical_and(y != x, x != y))
+    d = ctx.logical_or(ctx.logical_and(x != y, y != x), z > y)
+    e = ctx.logical_or(ctx.eq(z, x), ctx.eq(x, z))
+    return ctx(ctx.select(ctx.logical_or(ctx.logical_and(a, c), ctx.logical_and(d, b)), x, ctx.select(e, y, z)))
+
+
+def syn_numbers(ctx, x: float):
+    return ctx(x * ctx.constant(2) + ctx.constant(3) * x + ctx.constant("pi"))
+
+
+SYN = dict(syn_nested=(syn_nested, [(":float", ":float"), (":float32", ":float32")], ["python", "numpy", "cpp", "xla_client"]),
+           syn_commutative=(syn_commutative, [(":float", ":float", ":float")], ["python", "stablehlo", "xla_client"]),
+           syn_numbers=(syn_numbers, [(":float",)], ["python", "xla_client", "cpp"]))
+
+
+def resolve(tn, fname, i):
+    target = getattr(fa.targets, tn)
+    if fname in SYN:
+        return target, SYN[fname][0], SYN[fname][1][i]
+    return target, getattr(fa.algorithms, fname), target.trace_arguments[fname][i]
+
+
 def all_requests():
     out = []
     for tn in TARGETS:
         target = getattr(fa.targets, tn)
         for fname in target.trace_arguments:
             for i, _sig in enumerate(target.trace_arguments[fname]):
+                out.append([tn, fname, i])
+    for fname, (_f, sigs, tns) in SYN.items():
+        for tn in tns:
+            for i in range(len(sigs)):
                 out.append([tn, fname, i])
     return out
 
@@ -52,9 +102,7 @@ def new_context(tn):
 
 
 def trace_rewrite(ctx, tn, fname, i):
-    target = getattr(fa.targets, tn)
-    func = getattr(fa.algorithms, fname)
-    sig = target.trace_arguments[fname][i]
+    target, func, sig = resolve(tn, fname, i)
     return ctx.trace(func, *sig).rewrite(target, fa.rewrite)
 
 
@@ -128,8 +176,7 @@ def mode_sha(doc):
                 ctx = new_context(tn)
                 if others:
                     generate(others[0])
-                func = getattr(fa.algorithms, fname)
-                sig = target.trace_arguments[fname][i]
+                _t, func, sig = resolve(tn, fname, i)
                 g = ctx.trace(func, *sig)
                 if len(others) > 1:
                     generate(others[1])
@@ -393,6 +440,28 @@ def mode_witness(doc):
     return dict(names=names)
 
 
+def mode_probe_dtype_index(doc):
+    """A user-level algorithm that asks for `Context.dtype_index` of an argument after `_assume_same_dtype`
+    joined it with two arguments whose dtype indices are already cached: `find_dtype_index` returns whichever
+    cached index it meets first while ITERATING A SET of expression keys (context.py)."""
+    from functional_algorithms import floating_point_algorithms as fpa
+
+    def f(ctx, x: float, y: float, z: float):
+        ctx.dtype_index(x)
+        ctx.dtype_index(y)
+        ctx._assume_same_dtype(x, y, z)
+        c = ctx.dtype_index(z)
+        return ctx.item(ctx.list([x, y]), c)
+
+    def thunk():
+        ctx = fa.Context(paths=[fpa])
+        g = ctx.trace(f, ":float32", ":float32", ":float32").rewrite(fa.targets.lax, fa.rewrite)
+        return g.tostring(fa.targets.lax)
+
+    t = text_of(thunk)
+    return dict(text=t, sha=sha(t), hashseed=os.environ.get("PYTHONHASHSEED"))
+
+
 def main():
     doc = json.load(sys.stdin)
     mode = doc["mode"]
@@ -404,6 +473,8 @@ def main():
         res = mode_snapshot(doc)
     elif mode == "witness":
         res = mode_witness(doc)
+    elif mode == "probe_dtype_index":
+        res = mode_probe_dtype_index(doc)
     elif mode == "requests":
         res = dict(requests=all_requests())
     else:
